@@ -1,5 +1,107 @@
 package main
 
-import "fmt"
+import (
+	"encoding/json"
+	"fmt"
+	"os"
+	"strings"
 
-func replay(path string) { fmt.Println("replay not implemented yet:", path) }
+	"github.com/advancedclimatesystems/gonnx"
+)
+
+// replay re-runs ONE recorded case (the "case" object of a replay file) against the implementation in
+// /repo's current working tree and prints the case with a fresh "impl" field as one JSON line - the same
+// line the generator would have written, so that the driver and the judge can be run on it again.
+// Kinds whose inputs are closures of the generator (concurrent, batch on sample models with random
+// data, load of raw bytes) are re-run from what the case records where that is possible.
+func replay(path string) {
+	b, err := os.ReadFile(path)
+	if err != nil {
+		fmt.Fprintln(os.Stderr, err)
+		os.Exit(2)
+	}
+	var c Case
+	dec := json.NewDecoder(strings.NewReader(string(b)))
+	dec.UseNumber()
+	if err := dec.Decode(&c); err != nil {
+		fmt.Fprintln(os.Stderr, "cannot parse case:", err)
+		os.Exit(2)
+	}
+	remarshal := func(v any, into any) bool {
+		bb, err := json.Marshal(v)
+		if err != nil {
+			return false
+		}
+		d := json.NewDecoder(strings.NewReader(string(bb)))
+		d.UseNumber()
+		return d.Decode(into) == nil
+	}
+	var fresh *Case
+	switch c.Kind {
+	case "op":
+		if strings.HasPrefix(c.Stream, "lazyT:") {
+			inputLayout = "lazy-transposed"
+		}
+		fresh = &Case{Kind: "op", Stream: c.Stream, Op: c.Op, Attrs: c.Attrs, Inputs: c.Inputs, Outputs: c.Outputs, Share: c.Share, P: c.P}
+		fresh.Impl = runOpShared(c.Op, c.Attrs, c.Inputs, c.Outputs, c.Share)
+	case "bcast":
+		if len(c.Inputs) == 2 {
+			fresh = bcastCase(c.Op, c.Inputs[0], c.Inputs[1])
+		}
+	case "gate":
+		// the probes that ride on gate cases alternate with a counter: run both parities
+		gateCounter = 0
+		a := gateCase(c.Op, c.Dts)
+		bq := gateCase(c.Op, c.Dts)
+		fresh = a
+		if ja, _ := json.Marshal(a.Impl); c.Impl != nil {
+			if jc, _ := json.Marshal(c.Impl); string(ja) != string(jc) {
+				fresh = bq
+			}
+		}
+	case "decode":
+		var tp TPJ
+		if remarshal(c.P["tp"], &tp) {
+			fresh = decodeCase(c.Stream, &tp)
+		}
+	case "validate":
+		var sup []SupJ
+		if c.Graph != nil && remarshal(c.P["supplied"], &sup) {
+			validateCounter = 0
+			a := validateCase(c.Stream, c.Graph, sup)
+			bq := validateCase(c.Stream, c.Graph, sup) // with the warm-up Run
+			fresh = a
+			if a.Impl.Status == "ok" && bq.Impl.Status != "ok" || (c.Impl != nil && bq.Impl.Status == c.Impl.Status && a.Impl.Status != c.Impl.Status) {
+				fresh = bq
+			}
+		}
+	case "graph":
+		var ins []NamedT
+		if c.Graph != nil && remarshal(c.P["inputs"], &ins) {
+			fresh = graphCase(c.Stream, c.Graph, ins)
+		}
+	case "history":
+		var steps []HistStep
+		if !remarshal(c.P["steps"], &steps) {
+			break
+		}
+		if name, ok := c.P["model"].(string); ok {
+			fresh = historyCase(c.Stream, sampleModelLoader(name), name, steps)
+		} else {
+			var g GraphJ
+			if remarshal(c.P["model"], &g) {
+				fresh = historyCase(c.Stream, func() (*gonnx.Model, error) { return loadModel(&g) }, &g, steps)
+			}
+		}
+	}
+	if fresh == nil {
+		fmt.Fprintf(os.Stderr, "cases of kind %q (stream %q) are not replayable from the record alone; re-run the check with the same --seed\n", c.Kind, c.Stream)
+		os.Exit(3)
+	}
+	fresh.ID, fresh.Prop = c.ID, c.Prop
+	for _, t := range fresh.Inputs {
+		normTJ(t)
+	}
+	out, _ := json.Marshal(fresh)
+	fmt.Println(string(out))
+}
